@@ -180,7 +180,7 @@ func verifStubLoadClientConfig(path string, strict bool) (*v1.ClientCommonConfig
 // ---------------------------------------------------------------- C16: handlers and the types they are registered for
 
 //verif:contract (*~/client.Control).registerMsgHandlers
-//verif:props C16 C17
+//verif:props C16 C17 C14
 func verif_client_registerMsgHandlers(ctl *Control) {
 	verif.Requires(msg.VerifDispatcherOK(ctl.msgDispatcher), "dispatcher_built")
 	verif.ResetEvents()
@@ -195,6 +195,11 @@ func verif_client_registerMsgHandlers(ctl *Control) {
 	verif.Ensures(t1 && verif.HandlerName(verif.NthArg[func(msg.Message)](ev, 1, 2)) == "handleNewProxyResp", "new_proxy_resp_to_its_handler")
 	verif.Ensures(t2 && verif.HandlerName(verif.NthArg[func(msg.Message)](ev, 2, 2)) == "handleNatHoleResp", "nat_hole_resp_to_its_handler")
 	verif.Ensures(t3 && verif.HandlerName(verif.NthArg[func(msg.Message)](ev, 3, 2)) == "handlePong", "pong_to_its_handler")
+	// C14: the only handler that waits (for the work connection to be opened and
+	// the server's StartWorkConn) runs in its own goroutine; it must not hold up
+	// the read loop, or Pongs go unread and the watchdog tears a healthy session
+	// down. The other three run in the read loop (they do not block).
+	verif.Ensures(verif.HandlerWrapper(verif.NthArg[func(msg.Message)](ev, 0, 2)) == "AsyncHandler$1", "blocking_handler_runs_outside_the_read_loop")
 }
 
 //verif:contract (*~/client.Control).handleNewProxyResp
